@@ -315,7 +315,57 @@ def r15_7(ctx: Ctx) -> None:
                           construct=f"{name} mid-read failure")
 
 
+def r15_8(ctx: Ctx) -> None:
+    """registration and archiving go in lock-step: Worker.archive advances the worker's member cursor, so a member that is put into the
+    member table without a following Worker.archive call (on some normal path of write()/_writef()) leaves the cursor behind: every later
+    write archives the wrong source and close() writes a header that cannot be read."""
+    n = 0
+    for name in ("write", "_writef"):
+        f = shared.szf(ctx, name)
+        cfg = cfg_of(f.node)
+        regs = [r for k, r in _registrations(f, ctx) if k == "files_info.files"]
+        arch = [q.node_for(f, c) for c in q.calls(f) if "py7zr:Worker.archive" in shared.targets_of(ctx, f, c)]
+        for r in regs:
+            n += 1
+            ok = bool(arch) and cfg.every_path_to_exit_passes(q.node_for(f, r), arch)
+            ctx.check(ok, "R15.8", f, r, f"{name}: a registered member is archived on every path",
+                      f"{name} puts a member into the member table on a path that returns without calling Worker.archive (a stream positioned behind its end gives a negative "
+                      "size): the worker's cursor falls behind, the next write archives the stale entry instead of its own source and the closed archive cannot be opened",
+                      construct=f"{name} registration without archive")
+    ctx.floor("R15.8", n, 2, "member registrations in write/_writef")
+
+
+def r15_9(ctx: Ctx) -> None:
+    """what a session that cannot be completed leaves behind: (a) close() closes the archive handle on every path, also when
+    _write_flush raises (the `_fpclose` call sits in a `finally`, or nothing before it can raise); (b) in append mode the refusing arm of
+    _write_flush first writes a header again (the one the archive had when it was opened), because the old header has already been
+    overwritten by the session's data - refusing alone would lose every member the archive had before the session."""
+    cl = shared.szf(ctx, "close")
+    closes = [c for c in q.calls(cl) if attr_tail(c) == "_fpclose"]
+    flushes = [c for c in q.calls(cl) if attr_tail(c) == "_write_flush"]
+    ctx.floor("R15.9", len(closes), 1, "_fpclose in close()")
+    in_finally = any(isinstance(t, ast.Try) and any(c in list(ast.walk(st)) for st in t.finalbody for c in closes) and
+                     all(any(fl in list(ast.walk(st)) for st in t.body) for fl in flushes) for t in walk(cl.node))
+    ctx.check(in_finally, "R15.9", cl, closes[0], "close() closes the handle even when the flush raises",
+              "close() calls _fpclose after _write_flush outside a `finally`: when the flush refuses (a source failed midway) or fails, the archive handle is never closed "
+              "and every later close() raises again", construct="close without finally")
+    wf = shared.szf(ctx, "_write_flush")
+    cfg = cfg_of(wf.node)
+    refusals = [r for r in walk(wf.node) if isinstance(r, ast.Raise) and any(pol and isinstance(cd, ast.Attribute) and cd.attr.startswith("_") for cd, pol in q.facts_at(wf, r))]
+    ctx.floor("R15.9", len(refusals), 1, "refusing raise in _write_flush")
+    for r in refusals:
+        rn = q.node_for(wf, r)
+        # on the append path a header write precedes the refusal
+        hw = [c for c in q.calls(wf) if attr_tail(c) == "_write_header" and cfg.reaches(q.node_for(wf, c), rn) and any(
+            pol and "mode" in norm(cd) for cd, pol in q.facts_at(wf, c))]
+        ctx.check(bool(hw), "R15.9", wf, r, "a refused append session puts a header back before it gives up",
+                  "_write_flush refuses to complete a broken session without writing any header: in append mode the old header has been overwritten by the session's data by then, "
+                  "so the archive that existed before the session cannot be opened any more and all its members are lost", construct="refusal without header in append mode")
+
+
 def run(ctx: Ctx) -> None:
+    r15_9(ctx)
+    r15_8(ctx)
     r15_7(ctx)
     r15_6(ctx)
     r15_1(ctx)
